@@ -158,114 +158,52 @@ fn c20_kernel_bitarea_frame_witness() {
 /// explore BTreeMap drop navigation (deallocation is not C20's subject).
 fn arc_drop_noop<T: ?Sized, A: std::alloc::Allocator>(_this: &mut Arc<T, A>) {}
 
-fn any_small_type() -> UserPrmDataType {
-    match kani::any::<u8>() {
-        0 => UserPrmDataType::Unsigned8,
-        1 => UserPrmDataType::Unsigned16,
-        2 => UserPrmDataType::Signed8,
-        3 => UserPrmDataType::Signed16,
-        4 => {
-            let b: u8 = kani::any();
-            kani::assume(b <= 7);
-            UserPrmDataType::Bit(b)
-        }
-        _ => {
-            // whole-byte bit area: the known BitArea defect (F9) does not show for it
-            UserPrmDataType::BitArea(0, 7)
-        }
-    }
-}
-
-fn any_constraint() -> PrmValueConstraint {
-    match kani::any::<u8>() {
-        0 => PrmValueConstraint::Unconstrained,
-        _ => PrmValueConstraint::MinMax(kani::any(), kani::any()),
-    }
-}
-
-/// Reference: write value `v` of type `t` at `off` into `block` (value known to be in range).
-fn ref_overlay(block: &mut [u8; 8], off: usize, t: UserPrmDataType, v: i64) {
-    let m = ref_mask(t);
-    let bits = ref_bits(t, v);
-    let mut i = 0;
-    while i < 4 {
-        if off + i < 8 {
-            block[off + i] = (block[off + i] & !m[i]) | (bits[i] & m[i]);
-        }
-        i += 1;
-    }
-}
-
-fn in_range(t: UserPrmDataType, v: i64) -> bool {
-    let (lo, hi) = ref_range(t);
-    v >= lo && v <= hi
-}
-
+/// Minimal builder harness: one Unsigned8 parameter "a" at offset 1 over 2 constant bytes, a
+/// symbolic MinMax constraint and a one-entry text table; one call of set_prm or
+/// set_prm_from_text with symbolic value / known or unknown name and text.
 #[kani::proof]
-#[kani::unwind(10)]
+#[kani::unwind(6)]
 #[kani::stub(std::sync::Arc::drop_slow, arc_drop_noop)]
-fn c20_builder_set_prm() {
-    // layout: 4 constant bytes at offset 0; parameter "a" and parameter "b" at symbolic offsets
-    // 0..=2 (they may share a byte), symbolic types, defaults and constraints
-    let consts: [u8; 4] = kani::any();
-    let (ta, tb) = (any_small_type(), any_small_type());
-    let (oa, ob): (usize, usize) = (kani::any(), kani::any());
-    kani::assume(oa <= 2 && ob <= 2);
-    let (da, db): (i64, i64) = (kani::any(), kani::any());
-    let (ca, cb) = (any_constraint(), any_constraint());
-    let ca_ref = ca.clone();
-    let def_a = Arc::new(UserPrmDataDefinition { name: String::from("a"), data_type: ta, default_value: da, constraint: ca, text_ref: None, changeable: true, visible: true });
-    let def_b = Arc::new(UserPrmDataDefinition { name: String::from("b"), data_type: tb, default_value: db, constraint: cb, text_ref: None, changeable: true, visible: true });
-    let desc = UserPrmData { length: 4, data_const: vec![(0, consts.to_vec())], data_ref: vec![(oa, def_a), (ob, def_b)] };
+fn c20_builder_min() {
+    let consts: [u8; 2] = kani::any();
+    let (lo, hi): (i64, i64) = (kani::any(), kani::any());
+    let dflt: i64 = kani::any();
+    let text_value: i64 = kani::any();
+    let mut texts = std::collections::BTreeMap::new();
+    texts.insert(String::from("t"), text_value);
+    let def_a = Arc::new(UserPrmDataDefinition {
+        name: String::from("a"),
+        data_type: UserPrmDataType::Unsigned8,
+        default_value: dflt,
+        constraint: PrmValueConstraint::MinMax(lo, hi),
+        text_ref: Some(Arc::new(texts)),
+        changeable: true,
+        visible: true,
+    });
+    let desc = UserPrmData { length: 2, data_const: vec![(0, consts.to_vec())], data_ref: vec![(1, def_a)] };
     let desc: &'static UserPrmData = Box::leak(Box::new(desc));
-
-    // reference block after construction
-    let mut want = [0u8; 8];
-    want[..4].copy_from_slice(&consts);
-    let mut want_len = 4usize;
-    let defaults_ok = in_range(ta, da) && in_range(tb, db);
+    let fits = |v: i64| v >= 0 && v <= 255;
     match PrmBuilder::new(desc) {
-        Err(_) => {
-            assert!(!defaults_ok, "C20/defaults: a description whose defaults fit their data types builds");
-            kani::cover!(true, "cover: out-of-range default rejected as an error value");
-        }
+        Err(_) => assert!(!fits(dflt), "C20/defaults: a description whose defaults fit their data types builds"),
         Ok(mut b) => {
-            assert!(defaults_ok, "C20/defaults: a default outside its data type is rejected, not written");
-            ref_overlay(&mut want, oa, ta, da);
-            ref_overlay(&mut want, ob, tb, db);
-            if oa + ref_size(ta) > want_len {
-                want_len = oa + ref_size(ta);
-            }
-            if ob + ref_size(tb) > want_len {
-                want_len = ob + ref_size(tb);
-            }
-            {
-                let got = b.as_bytes();
-                assert!(got.len() == want_len, "C20/overlay: the block is as long as constants and parameters need");
-                let mut i = 0;
-                while i < want_len {
-                    assert!(got[i] == want[i], "C20/overlay: the initial block equals the constants overlaid with every parameter's default");
-                    i += 1;
-                }
-            }
-            // one set_prm call: parameter a, an unknown name
-            let v: i64 = kani::any();
+            assert!(fits(dflt), "C20/defaults: a default outside its data type is rejected, not written");
+            assert!(b.as_bytes().len() == 2 && b.as_bytes()[0] == consts[0] && b.as_bytes()[1] == dflt as u8, "C20/overlay: the initial block equals the constants overlaid with every parameter's default");
             let known: bool = kani::any();
-            let res = b.set_prm(if known { "a" } else { "x" }, v).map(|_| ());
-            let accept = known && in_range(ta, v) && ca_ref.is_valid(v);
-            assert!(res.is_ok() == accept, "C20/reject: a value is accepted exactly if the name is known, the constraint admits it and it fits the data type");
-            if accept {
-                ref_overlay(&mut want, oa, ta, v);
-            }
-            let got = b.as_bytes();
-            assert!(got.len() == want_len, "C20/overlay: setting a parameter never changes the block length");
-            let mut i = 0;
-            while i < want_len {
-                assert!(got[i] == want[i], "C20/set: an accepted value changes exactly the parameter's bits; a rejected call leaves the block unchanged");
-                i += 1;
-            }
-            kani::cover!(accept && oa == ob, "cover: accepted value for a parameter sharing its byte with another");
-            kani::cover!(!accept && known, "cover: known parameter, value rejected");
+            let by_text: bool = kani::any();
+            let v: i64 = kani::any();
+            let (res, value, text_known) = if by_text {
+                let good_text: bool = kani::any();
+                (b.set_prm_from_text(if known { "a" } else { "x" }, if good_text { "t" } else { "u" }).map(|_| ()), text_value, good_text)
+            } else {
+                (b.set_prm(if known { "a" } else { "x" }, v).map(|_| ()), v, true)
+            };
+            let accept = known && text_known && value >= lo && value <= hi && fits(value);
+            assert!(res.is_ok() == accept, "C20/reject: a value (given directly or through its text) is accepted exactly if name and text are known, the declared range admits it and it fits the data type");
+            let want1 = if accept { value as u8 } else { dflt as u8 };
+            assert!(b.as_bytes().len() == 2 && b.as_bytes()[0] == consts[0] && b.as_bytes()[1] == want1, "C20/set: an accepted value changes exactly the parameter's byte; a rejected call leaves the block unchanged");
+            kani::cover!(by_text && accept, "cover: value set through its text");
+            kani::cover!(by_text && known && text_known && !accept, "cover: text whose value violates the declared range");
+            kani::cover!(!by_text && !known, "cover: unknown parameter name");
             std::mem::forget(b);
         }
     }
